@@ -60,18 +60,29 @@ def build_unit(tmpl_path, repo_root, canary=False, verif_root=None):
             sources[rel] = Source(rel, open(p).read())
         return sources[rel]
 
-    def process(path, depth=0):
+    def expand(path, depth=0):
+        """read a template with #include expanded everywhere; each line keeps its origin (file, lineno)"""
+        if depth > 8:
+            raise ToolError(f"TOOL: include depth exceeded at {path}")
         rel_t = os.path.relpath(path, verif_root)
-        raw = open(path).read().split("\n")
+        out = []
+        for n, line in enumerate(open(path).read().split("\n")):
+            m = DIR_RE.match(line)
+            if m and m.group(1) == "include":
+                out.extend(expand(os.path.join(verif_root, m.group(2).strip()), depth + 1))
+            else:
+                out.append((line, rel_t, n + 1))
+        if out and out[-1][0] == "":
+            out.pop()
+        return out
+
+    def process(path, depth=0):
+        raw = expand(path)
         default_tags = ()
         i = 0
         while i < len(raw):
-            line = raw[i]
+            line, rel_t, ln = raw[i]
             m = DIR_RE.match(line)
-            if m and m.group(1) == "include":
-                process(os.path.join(verif_root, m.group(2).strip()), depth + 1)
-                i += 1
-                continue
             if m and m.group(1) == "props" :
                 default_tags = tuple(m.group(2).split())
                 i += 1
@@ -80,12 +91,12 @@ def build_unit(tmpl_path, repo_root, canary=False, verif_root=None):
                 # collect block
                 kind = m.group(1)
                 spec = m.group(2).strip()
-                start_line = i + 1
+                start_line = ln
                 block = []
                 if kind == "item":
                     i += 1
-                    while i < len(raw) and not raw[i].startswith("#end"):
-                        block.append((raw[i], i + 1))
+                    while i < len(raw) and not raw[i][0].startswith("#end"):
+                        block.append((raw[i][0], raw[i][2]))
                         i += 1
                     if i >= len(raw):
                         raise ToolError(f"TOOL: {rel_t}:{start_line}: #item without #end")
@@ -95,7 +106,7 @@ def build_unit(tmpl_path, repo_root, canary=False, verif_root=None):
             tags = _tags_of(line) or default_tags
             if canary and re.match(r"\s*//\s*CANARY-HERE\s*$", line):
                 line = line.replace("// CANARY-HERE", "assert(false); // CANARY lemma")
-            gen.emit(line, [LineInfo("tmpl", tmpl_file=rel_t, tmpl_line=i + 1, tags=tags)])
+            gen.emit(line, [LineInfo("tmpl", tmpl_file=rel_t, tmpl_line=ln, tags=tags)])
             i += 1
 
     def emit_item(kind, spec, block, rel_t, start_line):
